@@ -279,17 +279,33 @@ Theorem get_item_index_is_first : forall items it i, get_item_index items it = S
 Proof. exact get_item_index_first. Qed.
 Print Assumptions get_item_index_is_first.
 
-Theorem set_get_item_bare : forall B items it (x v : B) b',
-  set_item items it (BBare x) v = Some b' -> b' = BBare v /\ get_item items it b' = Some v.
-Proof. exact set_item_bare. Qed.
-Print Assumptions set_get_item_bare.
+(* "single item" is decided by the MODE (len(mode.split(" ")) == 1), not by the type of the batch: in a single-item
+   mode the batch IS the item -- a bare object, or a list / tuple of views -- so get_item hands back the batch itself
+   and set_item the value, for ANY batch; asking for another item than the mode's is an AssertionError *)
+Theorem single_item_mode_decided_by_mode : forall B s it (b : batch B) v,
+  get_item [s] it b = (if String.eqb s it then Some b else None) /\
+  set_item [s] it b v = (if String.eqb s it then Some (BBare v) else None).
+Proof. exact single_item_mode. Qed.
+Print Assumptions single_item_mode_decided_by_mode.
 
-(* set_item replaces exactly the item's position; get_item reads the new value there and the old ones elsewhere *)
-Theorem set_get_item_tuple : forall B items it (l : list B) v b',
+Theorem set_get_item_single : forall B s it (b : batch B) v b',
+  set_item [s] it b v = Some b' -> s = it /\ b' = BBare v /\ get_item [s] it b' = Some (BBare v).
+Proof. exact set_item_single. Qed.
+Print Assumptions set_get_item_single.
+
+(* in a several-item mode the batch must be a list / tuple (AssertionError otherwise) *)
+Theorem several_item_mode_needs_sequence : forall B items it (x v : B), List.length items <> 1%nat ->
+  get_item items it (BBare x) = None /\ set_item items it (BBare x) v = None.
+Proof. exact several_items_need_sequence. Qed.
+Print Assumptions several_item_mode_needs_sequence.
+
+(* ... and set_item replaces exactly the item's position (length kept); get_item reads the new value there and the
+   old ones elsewhere *)
+Theorem set_get_item_tuple : forall B items it (l : list B) v b', List.length items <> 1%nat ->
   set_item items it (BTuple l) v = Some b' ->
   exists i l', get_item_index items it = Some i /\ b' = BTuple l' /\ List.length l' = List.length l /\
     (forall q, nth_error l' q = if Nat.eqb q i then option_map (fun _ => v) (nth_error l q) else nth_error l q) /\
-    ((i < List.length l)%nat -> get_item items it b' = Some v) /\
+    ((i < List.length l)%nat -> get_item items it b' = Some (BBare v)) /\
     (forall it' j, get_item_index items it' = Some j -> j <> i -> get_item items it' b' = get_item items it' (BTuple l)).
 Proof. exact set_item_tuple. Qed.
 Print Assumptions set_get_item_tuple.
@@ -367,8 +383,14 @@ Proof. reflexivity. Qed.
 Example nv_set_item :
   set_item ["x"; "y"]%string "y" (BTuple [VInt 1; VInt 2]) (VInt 9) = Some (BTuple [VInt 1; VInt 9]) /\
   set_item ["x"]%string "x" (BBare (VInt 1)) (VInt 9) = Some (BBare (VInt 9)) /\
-  get_item_index ["x"; "y"; "x"]%string "x" = Some 0%nat.
-Proof. vm_compute. repeat split; reflexivity. Qed.
+  get_item_index ["x"; "y"; "x"]%string "x" = Some 0%nat /\
+  (* a multi-view item [V0; V1] in single-item mode "x" is the item, not a batch of two items *)
+  get_item ["x"]%string "x" (BTuple [VInt 1; VInt 2]) = Some (BTuple [VInt 1; VInt 2]) /\
+  set_item ["x"]%string "x" (BTuple [VInt 1; VInt 2]) (VInt 9) = Some (BBare (VInt 9)) /\
+  get_item ["x"]%string "y" (BTuple [VInt 1; VInt 2]) = None /\
+  get_item ["x"; "y"]%string "y" (BTuple [VInt 1; Tup [VInt 2; VInt 3]]) = Some (BBare (Tup [VInt 2; VInt 3])) /\
+  get_item ["x"; "y"]%string "y" (BBare (VInt 1)) = None /\ List.length ["x"; "y"]%string <> 1%nat.
+Proof. vm_compute. repeat split; try reflexivity. discriminate. Qed.
 Example nv_whitespace : split_space "x  class " = ["x"; ""; "class"; ""]%string /\ classify "" = Named "" /\
                         split_space "" = [""]%string.
 Proof. vm_compute. repeat split; reflexivity. Qed.
